@@ -263,8 +263,9 @@ def run_scenario(sc, fail, stats, aspects=("carry", "traceback", "state", "retry
                                 # with an unhashable argument and the failure is that of hashing it
                                 known = (nd.obj.name in uncached and isinstance(e2, TypeError) and "unhashable" in str(e2)
                                          and any(type(a).__name__ in UNHASHABLE for a in nd.args))
-                                bad("traceback", "the entry %s%r of get_traceback() after the failure of %s cannot be printed: "
-                                    "repr() raises %s(%s)" % (nd.obj.name, tuple(nd.args), what, type(e2).__name__, e2), k,
+                                bad("traceback", "the entry %s(%s) of get_traceback() after the failure of %s cannot be printed: "
+                                    "repr() raises %s(%s)" % (nd.obj.name, ", ".join(map(repr, nd.args)), what,
+                                                              type(e2).__name__, e2), k,
                                     key=KNOWN_TB_REPR if known else None)
                                 if not known:
                                     return False
@@ -379,3 +380,63 @@ def shrink(sc, still_fails):
                     cur, changed = cand, True
                     break
     return cur
+
+
+CORPUS_EXT = ".scenario"      # corpus/<prop>/*.scenario: witnesses of this family (JSON; `*.json` there are execworld cases)
+
+
+def load_corpus(prop):
+    import json
+    import os
+    from . import core
+    d = os.path.join(core.CORPUS_DIR, prop)
+    res = []
+    if os.path.isdir(d):
+        for f in sorted(os.listdir(d)):
+            if f.endswith(CORPUS_EXT):
+                sc = json.load(open(os.path.join(d, f)))
+                if sc.get("scenario") == SCENARIO:
+                    res.append(sc)
+    return res
+
+
+def run_all(ctx, out, stats, prop, aspects, lines=True, n_random=30, fresh_every=3):
+    """corpus witnesses, the product of structures(), random scenarios.  Every distinct (aspect, known?) failure is shrunk
+    and reported once; a known finding is keyed `<prop>-<suffix>` and does not stop the examination of the scenario."""
+    import collections
+    reported = set()
+    unknown = 0
+    scs = load_corpus(prop)
+    stats["argfail_corpus"] += len(scs)
+    ncorpus = len(scs)
+    scs += scenarios(ctx, n_random)
+    for i, sc in enumerate(scs):
+        got = []
+        stats["argfail_scenarios"] += 1
+        run_scenario(sc, lambda w, h, a, key: got.append((w, h, a, key)), stats, aspects, lines,
+                     fresh=i < ncorpus or (i + ctx.seed) % fresh_every == 0)
+        for what, hist, aspect, key in got:
+            if (aspect, key) in reported:
+                continue
+            reported.add((aspect, key))
+
+            def still(cand, aspect=aspect, key=key):
+                g = []
+                run_scenario(cand, lambda w, h, a, k2: g.append((a, k2)), collections.Counter(), aspects, lines)
+                return (aspect, key) in g
+            small = shrink(hist, still)
+            g = []
+            run_scenario(small, lambda w, h, a, k2: g.append((w, h, a, k2)), collections.Counter(), aspects, lines)
+            w2, h2 = next(((w, h) for w, h, a, k2 in g if (a, k2) == (aspect, key)), (what, hist))
+            out.fail(w2, h2, detail={"family": SCENARIO, "aspect": aspect}, key="%s-%s" % (prop, key) if key else None)
+            if not key:
+                unknown += 1
+        if unknown >= 3:
+            break
+
+
+def replay(payload_history, out, prop, aspects, lines=True):
+    import collections
+    run_scenario(payload_history, lambda w, h, a, key: out.fail(w, h, detail={"family": SCENARIO, "aspect": a},
+                                                                 key="%s-%s" % (prop, key) if key else None),
+                 collections.Counter(), aspects, lines)
